@@ -1,7 +1,17 @@
 // Package consensus binds spec/Consensus.tla (generator) and spec/TraceConsensus.tla (property monitor)
 // to the real DPoVP engine (C03, C02): every TLC behaviour is stepped through a real node; after each
 // step the node's observable chain state is logged: stable, head, the unconfirmed tree and, per block, the
-// DISTINCT DEPUTIES recovered from the stored confirm signatures.
+// DISTINCT NODES (identities: every key that is a deputy of some term; 0 = anyone else) recovered from the stored
+// confirm signatures.
+//
+// Term configurations (VERIF_NEWDEP set, see term.go): params.TermDuration / InterimDuration are shortened, a
+// fixed prefix of real blocks (funding, register / unregister transactions, the snapshot block(s) whose DeputyNodes
+// come from the real candidate ranking) elects one or two further terms that differ from their predecessors in
+// membership and size, every node under test first receives that prefix with the confirms of all deputies of each
+// block's term, and the explored blocks sit on top of it, around the first height the last elected term signs.  The
+// reset event then carries the deputy set of every height (`depof`, derived by the harness from its own
+// configuration, not from the deputy manager under test), the prefix length (`pl`) and whether every block could be
+// built / fed (`build_err`, `prefix_err`).
 package consensus
 
 import (
@@ -22,21 +32,28 @@ import (
 )
 
 type universe struct {
-	blocks []*types.Block // index 0 = genesis
+	blocks []*types.Block // index 0 = genesis, 1..pl = the stabilised prefix, pl+b = block b of the spec
 	parent []int
 	miner  []int
+	// term configurations: the code under test's deputy manager refused to schedule a miner the harness chose among
+	// the deputies of the block's term (the universe then ends before that block; the monitor rejects the reset event)
+	buildErr string
 }
 
 type adapter struct {
-	w        *node.World
-	nd, self int
-	builder  *node.Node
-	cache    map[string]*universe
-	built    map[string]*types.Block
-	u        *universe
-	nut      *node.Node
-	seq      int
-	dir      string
+	w         *node.World
+	nd, self  int
+	t         term
+	builder   *node.Node
+	prefix    []*types.Block // heights 1..pl (term configurations)
+	prefixErr string         // the prefix could not be built to its full length (see buildPrefix)
+	pminer    []int          // identity (1-based) of each prefix block's miner
+	cache     map[string]*universe
+	built     map[string]*types.Block
+	u         *universe
+	nut       *node.Node
+	seq       int
+	dir       string
 }
 
 func envInt(k string, d int) int {
@@ -57,15 +74,29 @@ func (a *adapter) init() {
 	if a.dir == "" {
 		a.dir = filepath.Join(os.TempDir(), fmt.Sprintf("verif-consensus-%d", os.Getpid()))
 	}
+	a.t = loadTerm(a.nd)
 	a.w = node.NewWorld(a.nd, 1000)
-	if a.self >= 1 && a.self <= a.nd {
+	a.t.extendWorld(a.w)
+	if a.self >= 1 && a.self <= len(a.w.Keys) {
 		deputynode.SetSelfNodeKey(a.w.Keys[a.self-1])
 	} else {
 		deputynode.SetSelfNodeKey(a.w.Outsider2())
 	}
-	a.builder = a.w.NewNode(filepath.Join(a.dir, "builder"))
+	a.builder = a.newNode(filepath.Join(a.dir, "builder"))
 	a.cache = map[string]*universe{}
 	a.built = map[string]*types.Block{}
+	if a.t.on {
+		a.buildPrefix()
+	}
+}
+
+// newNode is node.World.NewNode with the deputy manager's list size of the term configuration.
+func (a *adapter) newNode(dir string) *node.Node {
+	n := a.w.NewNode(dir)
+	if a.t.on {
+		n.DM.DeputyCount = a.t.dc
+	}
+	return n
 }
 
 func (a *adapter) build(parent, miner tla.Value) *universe {
@@ -77,23 +108,41 @@ func (a *adapter) build(parent, miner tla.Value) *universe {
 	if parent.Kind == tla.KFun {
 		nb = len(parent.Keys)
 	}
+	pl := len(a.prefix)
 	u := &universe{blocks: []*types.Block{a.builder.Genesis}, parent: []int{0}, miner: []int{0}}
-	for b := 1; b <= nb; b++ {
+	for i, blk := range a.prefix {
+		u.blocks = append(u.blocks, blk)
+		u.parent = append(u.parent, i)
+		u.miner = append(u.miner, a.pminer[i])
+	}
+	u.buildErr = a.prefixErr
+	for b := 1; b <= nb && u.buildErr == ""; b++ {
 		p := parent.GetI(b).I()
 		m := miner.GetI(b).I()
-		bk := fmt.Sprintf("%s/%d/b%d", u.blocks[p].Hash().Hex(), m, b)
+		pi := pl + p // the spec's G (0) is the prefix tip (genesis when there is no prefix)
+		bk := fmt.Sprintf("%s/%d/b%d", u.blocks[pi].Hash().Hex(), m, b)
 		blk, ok := a.built[bk]
 		if !ok {
 			var err error
-			blk, _, err = a.builder.Build(u.blocks[p], m-1, 0, nil, fmt.Sprintf("b%d", b))
+			blk, _, err = a.builder.Build(u.blocks[pi], m-1, 0, nil, fmt.Sprintf("b%d", b))
 			if err != nil {
-				engine.Failf("build block %d: %v", b, err)
+				if !a.t.on || !scheduleError(err) {
+					engine.Realf("build block %d (height %d, miner %d): %v", b, u.blocks[pi].Height()+1, m, err)
+				}
+				u.buildErr = fmt.Sprintf("block %d (height %d, miner %d, parent's miner %d): %v", b, u.blocks[pi].Height()+1, m, u.miner[pi], err)
+				break
 			}
+			a.learnTerm(blk)
 			a.built[bk] = blk
 		}
 		u.blocks = append(u.blocks, blk)
-		u.parent = append(u.parent, p)
+		u.parent = append(u.parent, pi)
 		u.miner = append(u.miner, m)
+	}
+	// the logged universe always names every block of the spec, built or not
+	for b := len(u.parent) - pl; b <= nb; b++ {
+		u.parent = append(u.parent, pl+parent.GetI(b).I())
+		u.miner = append(u.miner, miner.GetI(b).I())
 	}
 	a.cache[key] = u
 	return u
@@ -108,7 +157,7 @@ func (a *adapter) Reset(init map[string]tla.Value) (engine.Fields, error) {
 	}
 	a.u = a.build(init["parent"], init["miner"])
 	a.seq++
-	a.nut = a.w.NewNode(filepath.Join(a.dir, fmt.Sprintf("nut%d", a.seq)))
+	a.nut = a.newNode(filepath.Join(a.dir, fmt.Sprintf("nut%d", a.seq)))
 	// rank of the real hashes (smaller hash = smaller rank), used by the fork tie-break
 	type hr struct {
 		id int
@@ -119,11 +168,20 @@ func (a *adapter) Reset(init map[string]tla.Value) (engine.Fields, error) {
 		hs = append(hs, hr{i, a.u.blocks[i].Hash()})
 	}
 	sort.Slice(hs, func(i, j int) bool { return bytes.Compare(hs[i].h[:], hs[j].h[:]) < 0 })
-	rank := make([]int, len(a.u.blocks)-1)
+	rank := make([]int, len(a.u.parent)-1)
 	for r, x := range hs {
 		rank[x.id-1] = r + 1
 	}
 	fl := engine.Fields{"nd": a.nd, "self": a.self, "parent": a.u.parent[1:], "miner": a.u.miner[1:], "hrank": rank}
+	if a.t.on {
+		// the node under test receives the prefix the way a syncing node does: every block with the confirms of all
+		// deputies of its term.  Whatever it makes of it is logged with the reset event and judged by the monitor.
+		fl["prefix_err"] = a.feedPrefix()
+		fl["build_err"] = a.u.buildErr
+		fl["pl"] = len(a.prefix)
+		fl["depof"] = a.t.depOf(len(a.u.parent) - 1)
+		fl["nid"] = len(a.w.Keys)
+	}
 	a.project(fl)
 	return fl, nil
 }
@@ -138,16 +196,17 @@ func (a *adapter) idOf(h common.Hash) int {
 	return -1
 }
 
-func (a *adapter) sigs(b int, sg tla.Value) []types.SignData {
+// sigs signs block index bi with the keys of the packet's signers: identity d's key, or the outsider key.
+func (a *adapter) sigs(bi int, sg tla.Value) []types.SignData {
 	var out []types.SignData
-	h := a.u.blocks[b].Hash()
+	h := a.u.blocks[bi].Hash()
 	// deterministic order: by (signer, variant)
 	els := append([]tla.Value(nil), sg.Elems...)
 	sort.Slice(els, func(i, j int) bool { return els[i].String() < els[j].String() })
 	for _, s := range els {
 		d, v := s.At(0).I(), s.At(1).I()
 		key := a.w.Outsider
-		if d >= 1 && d <= a.nd {
+		if d >= 1 && d <= len(a.w.Keys) {
 			key = a.w.Keys[d-1]
 		}
 		out = append(out, node.Sign(h, key, v))
@@ -186,10 +245,13 @@ func (a *adapter) project(fl engine.Fields) {
 	signers := map[string][]int{}
 	raw := map[string]int{}
 	for id, b := range known {
+		// World.Signers maps a recovered node id to its index in w.NodeIDs, which holds every identity (the genesis
+		// deputies and the nodes that become deputies in the next term): a signer is logged as WHO it is, whether or
+		// not it is a deputy of this block's term - that judgement is the monitor's
 		rs, cnt := a.w.Signers(b)
 		out := []int{}
 		for _, r := range rs {
-			out = append(out, r+1) // deputy ids are 1-based in the spec; 0 = not a deputy
+			out = append(out, r+1) // identities are 1-based in the spec; 0 = not a deputy of any term
 		}
 		sort.Ints(out)
 		signers[strconv.Itoa(id)] = out
@@ -201,7 +263,12 @@ func (a *adapter) project(fl engine.Fields) {
 
 func (a *adapter) Apply(s engine.Step) (engine.Fields, error) {
 	fl := engine.Fields{}
-	b := s.Act.Args[0].I()
+	b := len(a.prefix) + s.Act.Args[0].I()
+	if b >= len(a.u.blocks) { // not built (buildErr): nothing can be delivered
+		fl["ok"], fl["err"] = false, "block not built"
+		a.project(fl)
+		return fl, nil
+	}
 	switch s.Act.Name {
 	case "InsertBlock", "RejectBlock", "InsertBlockDup":
 		sigs := a.sigs(b, s.Act.Args[1])
